@@ -320,13 +320,22 @@ def path_conditions(crate, root, target):
         s = strip(s0)
         if s is None:
             return
+        if s.get("k") == "blk":
+            for s2 in s["b"]["stmts"]:
+                guards_of_stmt(s2)
+            if s["b"]["tail"] is not None:
+                guards_of_stmt(s["b"]["tail"])
+            return
         if s.get("k") == "if":
             th_ex = exits(s["th"])
             el_ex = s["el"] is not None and exits(s["el"])
             if th_ex and not el_ex:
-                out.append(dict(c=s["c"], pol=False, node=s, kind="guard"))
+                out.append(dict(c=s["c"], pol=False, node=s, kind="guard", panics=not P.out(s["th"])))
+                if s["el"] is not None:      # `else if` chains: what is known once the else branch completes
+                    guards_of_stmt(s["el"])
             elif el_ex and not th_ex:
-                out.append(dict(c=s["c"], pol=True, node=s, kind="guard"))
+                out.append(dict(c=s["c"], pol=True, node=s, kind="guard", panics=not P.out(s["el"])))
+                guards_of_stmt(s["th"])
             return
         if s.get("k") == "let":
             init = strip(s.get("init"))
@@ -381,3 +390,23 @@ def _pat_walk(p):
             yield from _pat_walk(q)
     elif k in ("ref", "deref"):
         yield from _pat_walk(p["p"])
+
+
+def atoms_of(pcs):
+    """flatten path conditions into (atom node, polarity): strips `!`, splits `a || b` known false and `a && b` known true."""
+    out = []
+
+    def rec(cn, pol, item):
+        cn = strip(cn)
+        if cn is None:
+            return
+        if cn.get("k") == "un" and cn["op"] == "Not":
+            return rec(cn["x"], not pol, item)
+        if cn.get("k") == "bin" and ((cn["op"] == "Or" and not pol) or (cn["op"] == "And" and pol)):
+            rec(cn["l"], pol, item)
+            rec(cn["r"], pol, item)
+            return
+        out.append((cn, pol, item))
+    for it in pcs or []:
+        rec(it["c"], it["pol"], it)
+    return out
